@@ -4,6 +4,7 @@ Theorems about the forecaster state machine (SkVerif/Model/Forecaster.lean, Seri
 ANY `Core` and both horizon mixins unless stated.  Only theorems + non-vacuity examples here.
 -/
 import SkVerif.Lemmas.Update
+import SkVerif.Lemmas.PredInt
 namespace SkVerif.C10
 open SkVerif SkVerif.Fc
 
@@ -119,6 +120,170 @@ theorem update_half_applied_without_fh (core : Core) (s : FState) (y : Series) (
     update core .optional s y true =
       ({ s with y := Series.combineFirst y s.y, cutoff := some o.1 }, .err .value) := by
   simp [update, hfit, hfh, hlast]
+
+/-! ### Prediction intervals: `return_pred_int` / `alpha` through the single-step entry point -/
+
+/-- `update_predict_single(y_new, fh, …, return_pred_int, alpha)` returns exactly what `update(y_new)`
+followed by `predict(return_pred_int=…, alpha=…)` returns — point forecasts AND interval tables, for
+every interval-capable or plain forecaster, every level argument (valid or not) and both mixins -/
+theorem update_predict_single_intervals_eq_update_then_predict (ic : ICore) (mode : FhMode) (s s2 : FState)
+    (y : Series) (fh : Option FhArg) (fo : Option FH.FH) (f : FH.FH) (up : Bool) (a : IArgs)
+    (hfit : s.fitted = true) (hobj : fhObjOf fh = .ok fo) (hset : setFh mode s fo = .ok (some f))
+    (hupd : update ic.toCore mode { s with fh := some f } y up = (s2, .done)) :
+    updatePredictSingleI ic mode s y fh up a = predictI ic mode s2 none a := by
+  obtain ⟨h2fit, h2fh⟩ := Lem.update_done_fh ic.toCore mode { s with fh := some f } y up f s2 hfit rfl hupd
+  obtain ⟨fitted, y0, cutoff, fh0, wlen⟩ := s
+  obtain ⟨fitted2, y2, cutoff2, fh2, wlen2⟩ := s2
+  simp only at hfit h2fit h2fh
+  subst hfit h2fit h2fh
+  have hset2 : setFh mode ⟨true, y2, cutoff2, some f, wlen2⟩ none = .ok (some f) := by
+    cases mode <;> simp [setFh]
+  have hnone : fhObjOf none = .ok none := rfl
+  simp only [updatePredictSingleI, predictI, Bool.not_true, Bool.false_eq_true, ↓reduceIte,
+    hobj, hset, hnone, hset2, updateThenPredictI, hupd, predictStoredI]
+  cases cutoff2 <;> rfl
+
+/-- with `return_pred_int=False` the level argument is never looked at (not even validated):
+the interval entry point IS the plain `predict` -/
+theorem predict_without_intervals_ignores_alpha (ic : ICore) (mode : FhMode) (s : FState)
+    (fh : Option FhArg) (al : AlphaArg) :
+    predictI ic mode s fh ⟨false, al⟩ =
+      ((predict ic.toCore mode s fh).1, .plain (predict ic.toCore mode s fh).2) := by
+  unfold predictI predict
+  cases hf : s.fitted with
+  | false => rfl
+  | true =>
+    simp only [Bool.not_true, Bool.false_eq_true, ↓reduceIte]
+    cases h1 : fhObjOf fh with
+    | error e => rfl
+    | ok fo =>
+      dsimp only
+      cases h2 : setFh mode s fo with
+      | error e => rfl
+      | ok fh' =>
+        dsimp only [predictStoredI, predictStored]
+        cases fh' <;> cases s.cutoff <;> simp [atI]
+
+/-- asking for intervals never changes the point forecasts nor the forecaster's state -/
+theorem point_forecasts_independent_of_interval_arguments (ic : ICore) (mode : FhMode) (s : FState)
+    (fh : Option FhArg) (a : IArgs) (p : Series) (ts : List (List IRow)) (b : Bool)
+    (h : (predictI ic mode s fh a).2 = .withInt p ts b) :
+    (predict ic.toCore mode s fh).2 = .series p ∧ (predictI ic mode s fh a).1 = (predict ic.toCore mode s fh).1 := by
+  unfold predictI at h
+  unfold predictI predict
+  cases hf : s.fitted with
+  | false => simp [hf] at h
+  | true =>
+    simp only [hf, Bool.not_true, Bool.false_eq_true, ↓reduceIte] at h ⊢
+    cases h1 : fhObjOf fh with
+    | error e => simp [h1] at h
+    | ok fo =>
+      simp only [h1] at h
+      cases h2 : setFh mode s fo with
+      | error e => simp [h2] at h
+      | ok fh' =>
+        simp only [h2] at h
+        simp only [predictStoredI, predictStored] at h ⊢
+        cases fh' with
+        | none => simp at h
+        | some f =>
+          cases hc : s.cutoff with
+          | none => simp [hc] at h
+          | some c =>
+            simp only [hc] at h
+            unfold atI at h
+            obtain ⟨rpi, al⟩ := a
+            cases rpi with
+            | false => simp at h
+            | true =>
+              simp only [Bool.not_true, Bool.false_eq_true, ↓reduceIte] at h
+              cases hs : ic.supports with
+              | false => simp [hs] at h
+              | true =>
+                simp only [hs, Bool.not_true, Bool.false_eq_true, ↓reduceIte] at h
+                cases hp : predictAt ic.toCore ⟨true, s.y, some c, some f, s.wlen⟩ c f with
+                | error e => simp [hp] at h
+                | ok p' =>
+                  simp only [hp] at h
+                  cases hks : checkAlpha al with
+                  | error e => simp [hks] at h
+                  | ok ks =>
+                    simp only [hks, IOut.withInt.injEq] at h
+                    obtain ⟨rfl, _, _⟩ := h
+                    simp [h2, hp, outOf]
+
+/-- every interval table has one row per forecast, under the forecast's own labels, and
+`lower + upper = 2 · forecast` (NaN forecasts give NaN bounds) -/
+theorem interval_rows_follow_forecasts (ic : ICore) (c k : Int) (p : Series) :
+    (bounds ic c k p).map (·.1) = p.labels ∧
+    ∀ r ∈ bounds ic c k p, ∃ o ∈ p, r.1 = o.1 ∧
+      (match o.2 with
+       | none => r.2.1 = none ∧ r.2.2 = none
+       | some v => r.2.1 = some (v - ic.predErr k (o.1 - c)) ∧ r.2.2 = some (v + ic.predErr k (o.1 - c))) := by
+  constructor
+  · simp [bounds, Series.labels, List.map_map, Function.comp_def]
+  · intro r hr
+    simp only [bounds, List.mem_map] at hr
+    obtain ⟨o, ho, rfl⟩ := hr
+    refine ⟨o, ho, rfl, ?_⟩
+    cases o.2 <;> simp
+
+/-- one table per requested level, in the order given; a float level is the one-element list -/
+theorem one_table_per_level (ic : ICore) (s : FState) (c : Int) (f : FH.FH) (al : AlphaArg)
+    (p : Series) (ts : List (List IRow)) (b : Bool)
+    (h : atI ic s c f ⟨true, al⟩ = .withInt p ts b) :
+    ∃ ks, checkAlpha al = .ok ks ∧ ts = ks.map (fun k => bounds ic c k p) ∧ b = al.isOne ∧
+      ∀ k ∈ ks, 0 < k ∧ k < 1000 := by
+  unfold atI at h
+  simp only [Bool.not_true, Bool.false_eq_true, ↓reduceIte] at h
+  cases hs : ic.supports with
+  | false => simp [hs] at h
+  | true =>
+    simp only [hs, Bool.not_true, Bool.false_eq_true, ↓reduceIte] at h
+    cases hp : predictAt ic.toCore s c f with
+    | error e => simp [hp] at h
+    | ok p' =>
+      simp only [hp] at h
+      cases hks : checkAlpha al with
+      | error e => simp [hks] at h
+      | ok ks =>
+        simp only [hks, IOut.withInt.injEq] at h
+        obtain ⟨h1, h2, h3⟩ := h
+        subst h1
+        refine ⟨ks, rfl, h2.symm, h3.symm, ?_⟩
+        cases al with
+        | one k0 =>
+          simp only [checkAlpha] at hks
+          split at hks
+          · rename_i hk; simp only [Except.ok.injEq] at hks; subst hks
+            intro k hk'; simp at hk'; subst hk'; exact hk
+          · simp at hks
+        | many ks0 =>
+          simp only [checkAlpha] at hks
+          split at hks
+          · rename_i hk; simp only [Except.ok.injEq] at hks; subst hks
+            intro k hk'
+            have := List.all_eq_true.mp hk k hk'
+            simpa using this
+          · simp at hks
+
+/-- `update_predict` refuses prediction intervals before it reads or changes anything -/
+theorem update_predict_refuses_intervals_untouched (ic : ICore) (mode : FhMode) (s : FState) (y : Series)
+    (cv : Option CvSpec) (up : Bool) (al : AlphaArg) :
+    (updatePredictI ic mode s y cv up ⟨true, al⟩).1 = s ∧
+    ∃ e, (updatePredictI ic mode s y cv up ⟨true, al⟩).2 = .plain (.err e) := by
+  unfold updatePredictI
+  split
+  · exact ⟨rfl, _, rfl⟩
+  · exact ⟨rfl, _, rfl⟩
+
+-- non-vacuity: a fitted interval probe, one update, intervals at two levels
+example :
+    ((runI (icoreProbe 2) .optional {}
+      [.base (.fit [(0, some 1), (1, some 2), (2, some 3)] (some ([1, 2], true))),
+       .updatePredictSingle [(3, some 4)] none false ⟨true, .many [200, 500]⟩]).2.getLast?.bind IOut.intervals?) =
+    some [[(4, some 190, some 240), (5, some 166, some 266)],
+          [(4, some (305/2), some (555/2)), (5, some 91, some 341)]] := by decide +kernel
 
 -- non-vacuity
 example : Lem.merged [(1, some 5), (2, none)] [(0, some 1), (1, some 2), (2, some 3)] 1 = some (some 5) := by decide
